@@ -1,20 +1,23 @@
 package rogger
 
-import (
-	"context"
-
-	"verifsim/simrt"
-)
+import "verifsim/simrt"
 
 // VerifReset recreates the logger's queue and flush signalling inside the
 // current synctest bubble and starts a fresh flusher there (trusted harness
 // code added by the overlay; not part of TarsGo).
 func VerifReset(queueCap int) {
 	logQueue = make(chan *logValue, queueCap)
-	syncDone, syncCancel = context.WithCancel(context.Background())
-	asyncDone, asyncCancel = context.WithCancel(context.Background())
+	verifReinitFlushSignalling() // the tree's own initialisers, see the instrumenter
 	simrt.GoNamed("flusher", flushLog)
 }
 
 // VerifQueueLen returns the number of queued entries.
 func VerifQueueLen() int { return len(logQueue) }
+
+// VerifNewSmallRoller is NewRollFileWriter with the roll size in bytes (the public constructor
+// takes megabytes; a simulated run logs a few hundred bytes).
+func VerifNewSmallRoller(logpath, name string, num int, size int64) *RollFileWriter {
+	w := NewRollFileWriter(logpath, name, num, 1)
+	w.size = size
+	return w
+}
